@@ -383,7 +383,44 @@ def gen_toolbox(rng: random.Random) -> dict:
         if g["ku"][0] == "plus":
             consuming.add("ku")
 
+    def terminal_rules():
+        # TERMINAL-ONLY operands: one operator over sequences / choices of stack operations and
+        # literals written inline -- no rule reference anywhere inside, so nothing of it shows in
+        # the call tree.  What such an operand does is fixed by the transitions of its terminals
+        # alone (clause O6 evaluates it with the same spec_apply that judges O1).
+        # (no ranges and no case-insensitive operands: generated code matches 'a'..'b' through a
+        # regex compiled with re.I -- whether "A" matches is C12's subject, and this clause has
+        # to know whether a terminal matches.  Exact string literals are matched with startswith.)
+        inl = [n for n in INLINE_OK if n not in ("a_push_r", "a_push_ci", "a_push_ci1")]
+        iw = [0.15 if n.startswith("a_sl_") else 2.5 if n in LITERALS else atom_w[n] for n in inl]
+
+        def t():
+            return ["inl", rng.choices(inl, iw)[0]]
+
+        def tseq(progress=False):
+            items = [["inl", rng.choice(LITERALS)]] if progress else [t()]
+            items += [t() for _ in range(rng.randint(1, 2))]
+            return ["seq", items]
+
+        def operand():
+            r = rng.random()
+            return tseq() if r < 0.7 else (["alt", [tseq(), tseq()]] if r < 0.9 else t())
+
+        for i in range(rng.randint(1, 3)):
+            k = rng.choice(("opt", "opt", "alt", "alt", "star", "plus"))
+            if k == "opt":
+                e = ["opt", operand()]
+            elif k == "alt":
+                e = ["alt", [operand() for _ in range(rng.randint(2, 3))]]
+            else:
+                e = [k, tseq(progress=True)]
+            rules[f"t{i}"] = {"mod": "", "ast": e, "terms": True}
+            if k == "plus":
+                consuming.add(f"t{i}")
+
     gad_at = rng.randrange(n_rules) if rng.random() < 0.35 else None
+    if trivia is None and rng.random() < 0.6:
+        terminal_rules()
     for i in range(n_rules):
         if i == gad_at:
             cycle_gadget()
@@ -817,6 +854,82 @@ def flatten_calls(calls, out=None):
     return out
 
 
+def eval_terms(e, text, pos, stack):
+    """Terminal-only expression (inline terminals under ~ and |): (matched, pos, stack,
+    specified) by the terminals' specified transitions and the definitions of ~ and |."""
+    k = e[0]
+    if k == "inl":
+        return spec_apply(ATOMS[e[1]][1], text, pos, stack)
+    if k == "seq":
+        p, st, spec = pos, stack, True
+        for x in e[1]:
+            ok, p, st, sp = eval_terms(x, text, p, st)
+            spec = spec and sp
+            if not ok:
+                return False, pos, stack, spec
+        return True, p, st, spec
+    if k == "alt":
+        spec = True
+        for x in e[1]:
+            ok, p, st, sp = eval_terms(x, text, pos, stack)
+            spec = spec and sp
+            if ok:
+                return True, p, st, spec
+        return False, pos, stack, spec
+    raise ValueError(e)
+
+
+def check_terms_O6(rec, ast, text, stats):
+    """O6 -- an operator whose operand is made of terminals only.  Whether the operand matches
+    is fixed by C05's own clauses for its terminals.  Asserted, deliberately one-sided so that
+    a control-flow deviation (C03) is skipped rather than reported: when the operand FAILS by
+    the specification, the rule returns with exactly the entries it was entered with; when the
+    rule succeeded AND stopped where the specification stops, it returns with the specified
+    stack."""
+    pre = [t for _, t in rec["pre"]]
+    post = [t for _, t in rec["post"]]
+    k = ast[0]
+    d = {"rule": rec["rule"], "body": render_expr(ast), "stack_before": pre, "stack_after": post, "pos_before": rec["pre_pos"], "pos_after": rec["post_pos"], "result": rec["res"]}
+    if k == "opt":
+        ok, p, st, spec = eval_terms(ast[1], text, rec["pre_pos"], pre)
+        if not spec:
+            return None
+        stats["terminal_operand_rules_checked"] += 1
+        if not ok:
+            if rec["post"] != rec["pre"]:
+                return ("operator", "stack-changes-kept-after-failed-optional", d)
+        elif rec["res"] and rec["post_pos"] == p and post != st:
+            d["expected_stack"] = st
+            return ("operator", "wrong-stack-after-optional-over-terminals", d)
+        return None
+    if k == "alt":
+        ok, p, st, spec = eval_terms(ast, text, rec["pre_pos"], pre)
+        if not spec:
+            return None
+        stats["terminal_operand_rules_checked"] += 1
+        if ok and rec["res"] and rec["post_pos"] == p and post != st:
+            d["expected_stack"] = st
+            return ("operator", "stack-changes-kept-after-failed-alternative", d)
+        return None
+    if k in ("star", "plus"):
+        p, st = rec["pre_pos"], pre
+        n = 0
+        while n < 64:
+            ok, p2, st2, spec = eval_terms(ast[1], text, p, st)
+            if not spec:
+                return None
+            if not ok or p2 == p:
+                break
+            p, st, n = p2, st2, n + 1
+        stats["terminal_operand_rules_checked"] += 1
+        if rec["res"] and rec["post_pos"] == p and post != st:
+            d["expected_stack"] = st
+            d["iterations_by_the_specification"] = n
+            return ("operator", "stack-changes-kept-after-failed-repetition-iteration", d)
+        return None
+    return None
+
+
 def check_structure_O4(rec, tb, text, stats):
     """The backtracking clause, judged on the implementation's own call tree.
 
@@ -840,6 +953,8 @@ def check_structure_O4(rec, tb, text, stats):
     while ast[0] == "tag":
         ast = ast[1]
     k = ast[0]
+    if tb["rules"][name].get("terms") and not tb.get("trivia"):
+        return check_terms_O6(rec, ast, text, stats)
 
     def texts(entries):
         return [t for _, t in entries]
@@ -1163,7 +1278,7 @@ def gen_history(rng: random.Random, tb: dict):
 
 # --------------------------------------------------------------------------- the check
 
-STAT_KEYS = ("calls", "events", "injected_commit", "injected_fail", "call_failed_restored", "restores_seen", "effective_restores", "structure_checked", "structure_skipped", "failed_operands_checked", "probe_failed_operand_had_changed_stack", "probe_all_failed_midway", "probe_op_on_empty_stack")
+STAT_KEYS = ("terminal_operand_rules_checked", "calls", "events", "injected_commit", "injected_fail", "call_failed_restored", "restores_seen", "effective_restores", "structure_checked", "structure_skipped", "failed_operands_checked", "probe_failed_operand_had_changed_stack", "probe_all_failed_midway", "probe_op_on_empty_stack")
 
 
 def new_stats():
@@ -1570,6 +1685,7 @@ class Check:
             "restores_audited_O3": acc.get("restores_seen", 0),
             "effective_restores": acc.get("effective_restores", 0),
             "normal_form_rule_applications_checked_O4": acc.get("structure_checked", 0),
+            "terminal_only_operand_rule_applications_checked_O6": acc.get("terminal_operand_rules_checked", 0),
             "normal_form_rule_applications_skipped": {"count": acc.get("structure_skipped", 0), "why": "observed child calls did not have the operand shape (operand rule inlined by the optimizer, or entry serials lost)"},
             "failed_operand_evaluations_checked": acc.get("failed_operands_checked", 0),
             "executions_that_ran_out_of_frames_in_a_recursive_toolbox": {"count": acc.get("recursion_limit_reached", 0), "note": "RecursionError in a toolbox with the recursive cycle gadget is the ordinary limit of recursive descent (excluded by C07's own wording); counted, not judged. In toolboxes without recursion a RecursionError is a violation of 'never raises'."},
